@@ -89,6 +89,32 @@ def run(ctx, replay_case):
                             break
                     if problem is None and k < len(pn):
                         problem = f"rows and events do not correspond one to one in order (row {k}: {pn[k]} has no event at its place)"
+                    if problem is None:
+                        # a warning's row stands where its event stands: as many field rows before it as there are field events
+                        # before the warning (a byte buffer counts as the one row it is; the optional rows of non-byte lists are
+                        # not counted on either side - the printer shows the row of an EMPTY list only after the warnings it met
+                        # while looking for the list's first element)
+                        fe, seen, skip_parent = [], 0, None
+                        for l in erow:
+                            if l.startswith("E! "):
+                                fe.append(seen)
+                                continue
+                            t, path = l.split(" ")[1], l.split(" ")[2]
+                            if skip_parent is not None and path.rsplit("[", 1)[0] == skip_parent and "[" in path.rsplit(".", 1)[-1]:
+                                continue
+                            skip_parent = path if t == "list[BYTE]" else None
+                            if not islist(t):
+                                seen += 1
+                        fr, seen = [], 0
+                        for l in prow:
+                            if l.startswith("P! "):
+                                fr.append(seen)
+                            elif l.startswith("P ") and l.split(" ")[1] != "-" and not islist(l.split(" ")[1]):
+                                seen += 1
+                        if fe != fr:
+                            k_ = next((i for i, (a_, b_) in enumerate(zip(fe, fr)) if a_ != b_), 0)
+                            problem = (f"warning {k_} is not shown where it occurred: {fr[k_] if k_ < len(fr) else '?'} field rows precede its row, "
+                                       f"{fe[k_] if k_ < len(fe) else '?'} field events precede the warning")
         if problem is None:
             # bit rows: an attribute word that is not a list element is followed by one bit row per field of its type (pinned
             # layout; TPM_RC's rows depend on the code's format, so only "some"), every other row — list elements included — by none
